@@ -4,6 +4,7 @@ from engine import facts, fmt
 from engine.callgraph import CallGraph
 from engine.dataflow import Summaries, PtrTaint, decl_of, def_exprs, def_sites, local_decl
 from engine.facts import AnalysisBroken, render, strip, relpath
+from rules import common
 
 LEVEL = 'other'
 
@@ -298,7 +299,7 @@ def is_ids_field(n):
 def check_readonly(ctx, prog, cg, roots):
     """E7: every use of the stored pointers is a read."""
     chk = ctx.chk
-    reach = cg.reachable(roots)
+    reach = common.checked_reach(cg, prog) if roots else {}
     nuses = 0
     viol = []
     for key, (f, _, _) in reach.items():
